@@ -54,8 +54,23 @@ CHECKS = {
          "replace each other; every link list must accept same-block entities of the right kind and refuse everything "
          "else (wrong kind, other block incl. same-named) leaving the list unchanged.",
          "The model of 'which path denotes which entity' is the harness' own record of its calls.", "DESIGN.md 4/C05"),
+ "C12": ("fault injection into generated histories: catalogue call-site x fault-class, walk-before == walk-after oracle",
+         "Every public creating/mutating call is paired with every class of invalid argument it can receive (about "
+         "230 site x class pairs, enumerated completely on every run after a fixed history, and injected at random "
+         "positions of generated histories); when the call raises, the canonical walk of the whole file must be "
+         "unchanged and the valid retry must succeed.",
+         "A call that does not raise is not 'refused' and only counted; invisible HDF5 leftovers (empty container "
+         "groups) are not observable state.", "DESIGN.md 4/C12"),
+ "C15": ("Hypothesis-generated calibration set/clear sequences x read paths vs. NumPy raw model + independent Horner evaluation; raw h5py read-back",
+         "Element types x shapes x coefficient lists (0-5, zeros) x origins x every read path (whole, expressions, "
+         "elements, views incl. views created before the change, tag.tagged_data, reopen) are compared with an "
+         "independent float64 Horner evaluation of the raw model under a condition-aware tolerance; inactive "
+         "calibration must return the stored dtype bitwise; after every attribute op the HDF5 dataset is read with "
+         "h5py and must equal the raw model.", "NumPy float64 arithmetic as reference; +-inf / overflowing elements masked.",
+         "DESIGN.md 4/C15"),
 }
 PENDING = {}
+LEVELS = {"C12": "fault_enumeration"}
 
 def main():
     props = [json.loads(l) for l in open(os.path.join(HERE, "properties.jsonl"))]
@@ -71,7 +86,7 @@ def main():
                 "evidence_file": "evidence/%s.json" % pid,
                 "replay_cmd_template": "./check %s --replay {path}" % pid,
                 "engine": "pbt-runner",
-                "level_claimed": {"category": "exploration", "text": text, "design_ref": ref},
+                "level_claimed": {"category": LEVELS.get(pid, "exploration"), "text": text, "design_ref": ref},
                 "level_note": note,
                 "technique": tech,
             })
